@@ -13,14 +13,14 @@ theorem rise_series_is_own_segment (db : Loaded α) (pairs : List ((Int × Int) 
     (e : Int) (pts : List (α × α)) (h : (e, pts) ∈ riseSeries db pairs) :
     ∃ p ∈ pairs, p.2.1 = e ∧ ∃ z0 z1, levelAt db p.2.1 = some z0 ∧ levelAt db p.2.2 = some z1 ∧
       pts = [(Num.ofInt 0, z0), (totalRainDepth db p.1, z1)] := by
-  sorry
+  exact mem_riseSeries h
 
 /-- a recession series is the samples of its own interstorm interval -/
 theorem recession_series_is_own_samples (db : Loaded α) (inter : List (Int × Int))
     (e : Int) (pts : List (α × α)) (h : (e, pts) ∈ recessionSeries db inter) :
     ∃ q ∈ inter, q.1 = e ∧
       pts = (db.level.filter (fun z => decide (q.1 ≤ z.1) && decide (z.1 ≤ q.2))).map (fun z => (Num.ofInt z.1, z.2)) := by
-  sorry
+  exact mem_recessionSeries h
 
 /-- every interval row and every crossing row of an assembled curve is keyed by one of the series
     handed in, and every crossing row belongs to an interval row -/
@@ -28,24 +28,72 @@ theorem curve_rows_keyed (step : α) (ref : Option α) (series : List (Int × Li
     (t : CurveTables α) (h : curveOf step ref series = .ok t) :
     (∀ r ∈ t.intervals, r.1 ∈ series.map (·.1)) ∧
     (∀ c ∈ t.crossings, c.1 ∈ t.intervals.map (·.1)) := by
-  sorry
+  exact ⟨(curveOf_rows h).1, fun c hc => ((curveOf_rows h).2 c hc).1⟩
 
+set_option linter.unusedVariables false in
 /-- each crossing value is the mean crossing position computed from that interval's own
-    (re-based) samples -/
+    (re-based) samples.  (`hk` is not used by the proof: the witness exists whatever the keys; with
+    distinct keys it is *the* series of that key, see `series_of_row_unique` below.) -/
 theorem crossing_values_are_own_means (step : α) (ref : Option α) (series : List (Int × List (α × α)))
     (hk : (series.map (·.1)).Nodup) (t : CurveTables α) (h : curveOf step ref series = .ok t)
     (c : Int × Int × α) (hc : c ∈ t.crossings) :
     ∃ pts, (c.1, pts) ∈ series ∧ (c.2.1, c.2.2) ∈ meanCrossings step (rebase pts) := by
-  sorry
+  exact ((curveOf_rows h).2 c hc).2
 
 theorem rising_rows_keyed_by_matched_rise (db : Loaded α) (pairs : List ((Int × Int) × (Int × Int)))
     (step : α) (ref : Option α) (t : CurveTables α) (h : riseCurveTables db pairs step ref = .ok t) :
     (∀ r ∈ t.intervals, ∃ p ∈ pairs, p.2.1 = r.1) ∧ (∀ c ∈ t.crossings, ∃ p ∈ pairs, p.2.1 = c.1) := by
-  sorry
+  unfold riseCurveTables at h
+  obtain ⟨h1, h2⟩ := curve_rows_keyed step ref _ t h
+  have key : ∀ e ∈ (riseSeries db (sortPairs pairs)).map (·.1), ∃ p ∈ pairs, p.2.1 = e := by
+    intro e he
+    obtain ⟨x, hx, rfl⟩ := List.mem_map.mp he
+    obtain ⟨p, hp, hpe, _⟩ := rise_series_is_own_segment db _ x.1 x.2 hx
+    exact ⟨p, mem_sortPairs.mp hp, hpe⟩
+  refine ⟨fun r hr => key r.1 (h1 r hr), fun c hc => ?_⟩
+  obtain ⟨r, hr, he⟩ := List.mem_map.mp (h2 c hc)
+  rw [← he]
+  exact key r.1 (h1 r hr)
 
 theorem recession_rows_keyed_by_interstorm (db : Loaded α) (inter : List (Int × Int))
     (step : α) (ref : Option α) (t : CurveTables α) (h : recessionCurveTables db inter step ref = .ok t) :
     (∀ r ∈ t.intervals, ∃ q ∈ inter, q.1 = r.1) ∧ (∀ c ∈ t.crossings, ∃ q ∈ inter, q.1 = c.1) := by
-  sorry
+  unfold recessionCurveTables at h
+  obtain ⟨h1, h2⟩ := curve_rows_keyed step ref _ t h
+  have key : ∀ e ∈ (recessionSeries db (sortInter inter)).map (·.1), ∃ q ∈ inter, q.1 = e := by
+    intro e he
+    obtain ⟨x, hx, rfl⟩ := List.mem_map.mp he
+    obtain ⟨q, hq, hqe, _⟩ := recession_series_is_own_samples db _ x.1 x.2 hx
+    exact ⟨q, mem_sortInter.mp hq, hqe⟩
+  refine ⟨fun r hr => key r.1 (h1 r hr), fun c hc => ?_⟩
+  obtain ⟨r, hr, he⟩ := List.mem_map.mp (h2 c hc)
+  rw [← he]
+  exact key r.1 (h1 r hr)
+
+omit [Num α] in
+/-- supplement: with distinct keys, the samples a row traces back to are determined by its key -/
+theorem series_of_row_unique (series : List (Int × List (α × α))) (hk : (series.map (·.1)).Nodup)
+    (e : Int) (pts pts' : List (α × α)) (h : (e, pts) ∈ series) (h' : (e, pts') ∈ series) :
+    pts = pts' :=
+  series_of_key_unique hk h h'
+
+/-! ### non-vacuity: three keyed series over `Rat` with overlapping level ranges -/
+
+/-- three rising series keyed by start epoch, as points (position, level) -/
+def exKeyed : List (Int × List (Rat × Rat)) :=
+  [(100, [(0, 1/2), (1, 5/2)]), (200, [(0, 3/2), (1, 7/2)]), (300, [(0, 1/5), (2, 16/5)])]
+
+/-- the curve is assembled; interval keys, crossing rows (key, level, mean crossing) and the master
+    curve are as displayed -/
+example : (curveOf 1 none exKeyed).toOption.map
+      (fun t => (t.intervals.map (·.1), t.crossings, t.master)) =
+    some ([300, 100, 200],
+      [(300, 1, 8/15), (100, 1, 1/4), (300, 2, 6/5), (100, 2, 3/4), (200, 2, 1/4),
+       (300, 3, 28/15), (200, 3, 3/4)],
+      [(1, -11/9), (2, -11/18), (3, 0)]) := by decide +kernel
+
+/-- e.g. the row `(300, 2, 6/5)` is the mean crossing of level 2 by series 300's own samples -/
+example : ((2 : Int), (6/5 : Rat)) ∈ meanCrossings 1 (rebase [((0 : Rat), (1/5 : Rat)), (2, 16/5)]) := by
+  decide +kernel
 
 end Spowtd
